@@ -20,5 +20,6 @@ rm -rf bio-seq/tests
 cp $O/patch.diff /tmp/seed_$id.diff
 cd /verif
 git -C /repo apply /tmp/seed_$id.diff || { echo "patch does not apply to /repo"; exit 8; }
+export VERIF_EVIDENCE_DIR=/verif/work/seed-evidence
 for p in "$@"; do echo "--- ./check $p on seeded tree"; ./check $p 2>&1 | grep -E '^(VIOLATION|FAILED-OBLIGATION|OK|UNDECIDED|KNOWN)' | cut -c1-260 | head -8; echo "exit ${PIPESTATUS[0]}"; done
 git -C /repo checkout -- . && git -C /repo status --short | head -3
